@@ -4,6 +4,7 @@ From VQ Require Import Model.Inventory.
 From VQ.Gen Require Import inv_rlfq.
 Import ListNotations.
 Open Scope string_scope.
-Lemma pin_inv_rlfq : inv_rlfq =
+Definition pinned_inv_rlfq : list (string * kind * bool) :=
   [].
+Lemma pin_inv_rlfq : inv_rlfq = pinned_inv_rlfq.
 Proof. reflexivity. Qed.
